@@ -250,7 +250,12 @@ func checkC03(c *Ctx) {
 		c.Ev.Count("parseNumber-direct", buf, tag != 0)
 		if impl != ans[i] {
 			c.Ev.Coverage.ModelDisagreements++
-			c.Violate("parseNumber", "parseNumber differs from the number model (which is proved equal to the specification)", "num-direct",
+			sigD := "num-direct"
+			if c.SigHook(buf, "document") == "document:intpart>800digits" {
+				// the same strconv behaviour reached through parseNumber directly: known finding K3
+				sigD = "document:intpart>800digits"
+			}
+			c.Violate("parseNumber", "parseNumber differs from the number model (which is proved equal to the specification)", sigD,
 				map[string]interface{}{"lit": string(buf), "impl": impl, "model": ans[i]})
 		}
 	}
